@@ -210,7 +210,8 @@ class Soil:
         self.profile = pd.DataFrame(
             np.empty((len(dz), 4)), columns=["Comp", "Layer", "dz", "dzsum"]
         )
-        self.profile.dz = dz
+        # (as floats: thicknesses given as integers are thickened in 0.1 m steps too)
+        self.profile.dz = np.asarray(dz, dtype=float)
         self.profile.dzsum = np.cumsum(self.profile.dz).round(2)
         self.profile.Comp = np.arange(len(dz))
         self.profile.Layer = np.nan
